@@ -291,5 +291,8 @@ FIXED = [
     ("loop-variable-shadows-a-name-read-afterwards", 'from nada_dsl import *\n\ndef nada_main():\n    p = Party(name="P")\n    v = SecretInteger(Input(name="v", party=p))\n    t = v + v\n    for v in range(3):\n        t = t + t\n    kept = v\n    w = kept + 1\n    return [Output(t, "o", p)]\n'),
     ("loop-variable-read-after-the-loop", 'from nada_dsl import *\n\ndef nada_main():\n    p = Party(name="P")\n    s = SecretInteger(Input(name="s", party=p))\n    t = s\n    for i in range(2):\n        t = t + s\n    last = i\n    n = last * 2\n    return [Output(t, "o", p)]\n'),
     ("nested-loops-reusing-the-variable", 'from nada_dsl import *\n\ndef nada_main():\n    p = Party(name="P")\n    s = SecretInteger(Input(name="s", party=p))\n    i = s\n    t = i + s\n    for i in range(2):\n        for j in range(2):\n            t = t + s\n        k = i + j\n    m = i\n    return [Output(t, "o", p)]\n'),
+    # a loop over something that is not a range: the loop is reported; its target must not be given a type it does not have
+    ("loop-over-a-list-display", 'from nada_dsl import *\n\ndef nada_main():\n    p = Party(name="P")\n    a = SecretInteger(Input(name="a", party=p))\n    b = SecretInteger(Input(name="b", party=p))\n    t = a\n    for q in [a, b]:\n        t = t + q\n    last = q\n    return [Output(t, "o", p)]\n'),
+    ("comprehension-over-a-list-variable", 'from nada_dsl import *\n\ndef nada_main():\n    p = Party(name="P")\n    a = SecretInteger(Input(name="a", party=p))\n    l = [a, a]\n    m = [e for e in l]\n    return [Output(a, "o", p)]\n'),
     ("typed-constructor-of-int", 'from nada_dsl import *\n\ndef nada_main():\n    p = Party(name="P")\n    s = SecretInteger(Input(name="s", party=p))\n    n = 3\n    a = PublicInteger(10)\n    b = SecretInteger(n + 1)\n    return [Output(s, "o", p)]\n'),
 ]
